@@ -10,6 +10,7 @@ import (
 	"fmt"
 	"os"
 	"runtime/debug"
+	"runtime/pprof"
 	"strconv"
 	"strings"
 	"sync/atomic"
@@ -139,6 +140,9 @@ func startWatchdog(limit time.Duration) {
 			hb := heartbeat.Load()
 			if hb != 0 && time.Since(time.Unix(0, hb)) > limit {
 				fmt.Fprintf(os.Stderr, "WATCHDOG: a run exceeded %v of wall time\n", limit)
+				if os.Getenv("VERIF_WATCHDOG_DUMP") != "" {
+					pprof.Lookup("goroutine").WriteTo(os.Stderr, 2)
+				}
 				os.Exit(3)
 			}
 		}
